@@ -345,6 +345,7 @@ func cmdCheck(args []string) int {
 	genS := time.Since(start).Seconds() - loadS
 
 	// ---- discharge ----
+	earlyLedger := readLedger(filepath.Join(verifDir, "ledger", prop+".txt"))
 	run := &Run{v: v, assumptions: map[string]bool{}, trustedUsed: map[string]bool{}}
 	type job struct {
 		o *Oblig
@@ -414,6 +415,22 @@ func cmdCheck(args []string) int {
 			}
 			for _, i := range idx {
 				res := solveSplit(jobs[i].q, timeoutS)
+				// A clause of the ledger that no solver decides is tried again with the hypotheses in another order and
+				// other solver seeds: whether a provable query is proved within the budget depends on incidental naming
+				// and ordering (more attempts can only turn "undecided" into "proved", never hide a counterexample).
+				for attempt := 1; attempt <= 2 && res.Verdict != "unsat" && res.Verdict != "sat" && res.Verdict != "error" && earlyLedger[jobs[i].o.Name()]; attempt++ {
+					q0 := jobs[i].q
+					q2 := &Query{Name: q0.Name + fmt.Sprintf(" [retry %d]", attempt), Axioms: q0.Axioms, Goal: q0.Goal, IsCover: q0.IsCover, Values: q0.Values, SeedOff: 11 * attempt}
+					n := len(q0.Hyps)
+					if n > 0 {
+						k := (attempt * n) / 3
+						q2.Hyps = append(append([]*Term(nil), q0.Hyps[k:]...), q0.Hyps[:k]...)
+					}
+					r2 := solveSplit(q2, timeoutS)
+					if r2.Verdict == "unsat" || r2.Verdict == "sat" {
+						res = r2
+					}
+				}
 				jobs[i].o.Res = &res
 			}
 		}(idx)
@@ -957,7 +974,7 @@ func solveSplit(q *Query, timeoutS int) SolverResult {
 	total.Verdict = "unsat"
 	total.All = map[string]string{}
 	for i, c := range pieces {
-		sub := &Query{Name: fmt.Sprintf("%s [conjunct %d]", q.Name, i), Axioms: q.Axioms, Hyps: q.Hyps, Goal: c}
+		sub := &Query{Name: fmt.Sprintf("%s [conjunct %d]", q.Name, i), Axioms: q.Axioms, Hyps: q.Hyps, Goal: c, SeedOff: q.SeedOff}
 		r := Solve(sub, timeoutS, false)
 		total.TimeS += r.TimeS
 		total.Solver = r.Solver
